@@ -173,17 +173,17 @@ func H_C09_restart() {
 func init() { vHarnesses["H_C09_ids"] = H_C09_ids }
 
 func vSegName(kind string, id int) string {
-	s := "000000"
-	d := []byte(s)
-	for i := 5; i >= 0 && id > 0; i-- {
-		d[i] = byte('0' + id%10)
-		id /= 10
+	// %06d: at least six digits
+	ds := ""
+	for n := id; n > 0; n /= 10 {
+		ds = string(rune('0'+n%10)) + ds
 	}
-	return kind + "_" + string(d) + ".bin.gz"
+	for len(ds) < 6 {
+		ds = "0" + ds
+	}
+	return kind + "_" + ds + ".bin.gz"
 }
 
-// segment identifiers are never reused: whatever segment-like files the directory holds
-// (complete, empty, foreign component only), the next flush takes an id above all of them
 func H_C09_ids() {
 	vStoreTemplates = 3
 	dir := vTempDir()
@@ -192,7 +192,7 @@ func H_C09_ids() {
 	vAssert(err == nil, "open-ok")
 	vAssert(s0.AddWithID(11, []float32{1}, "", nil) == nil, "add-ok")
 	vAssert(s0.Close() == nil, "close-ok")
-	maxID := []int{1, 7, 8, 9, 10, 63, 64, 99, 100, 777}[vChoose("highest_existing", 10)]
+	maxID := []int{1, 7, 8, 9, 10, 63, 64, 99, 100, 777, 99999, 999998, 999999, 1000000, 1000009}[vChoose("highest_existing", 15)]
 	if maxID > 1 {
 		kind := []string{"hybrid", "vector", "text", "metadata"}[vChoose("component", 4)]
 		var content []byte
@@ -221,5 +221,54 @@ func H_C09_ids() {
 	}
 	vAssert(found, "flushed-document-visible")
 	vAssert(s.Close() == nil, "close-ok")
+	vCover("ran")
+}
+
+func init() { vHarnesses["H_C09_refused"] = H_C09_refused }
+
+// operations that are refused must not cost an acknowledged document its durability: one document added,
+// then 0..2 refused Removes (unknown id) or a refused Add (wrong dimension; with one-document memtables it
+// rotates first), then Close / Flush+Close / Flush followed by the death of the process (image at the
+// instant Flush returned, no Close): the document is found after reopening with fresh templates
+func H_C09_refused() {
+	vStoreTemplates = 3
+	dir := vTempDir()
+	tiny := vChoose("tiny_memtables", 2) == 1
+	s, err := OpenPersistentHybridIndex(vFreshStoreCfg(dir, tiny))
+	vAssert(err == nil, "open-ok")
+	a := vStoreDocs[0]
+	vAssert(s.AddWithID(a.id, []float32{a.vec}, a.text, nil) == nil, "add-ok")
+	switch vChoose("refused", 4) {
+	case 1:
+		vAssert(s.Remove(999) != nil, "remove-of-unknown-id-refused")
+		vTag("refused-remove")
+	case 2:
+		vAssert(s.Remove(999) != nil && s.Remove(998) != nil, "remove-of-unknown-id-refused")
+		vTag("two-refused-removes")
+	case 3:
+		vAssert(s.AddWithID(77, []float32{1, 2}, "", nil) != nil, "add-with-wrong-dimension-refused")
+		vTag("refused-add")
+	}
+	switch vChoose("end", 3) {
+	case 0:
+		vAssert(s.Close() == nil, "close-ok")
+	case 1:
+		vAssert(s.Flush() == nil, "flush-ok")
+		vAssert(s.Close() == nil, "close-ok")
+	case 2:
+		vAssert(s.Flush() == nil, "flush-ok")
+		snap := vFSSnapshot() // the process dies here: Flush was the durability point
+		vAssert(s.Close() == nil, "close-ok")
+		vFSRestore(snap)
+		vFSRemove(dir + "/LOCK")
+		vTag("died-after-flush")
+	}
+	s2, err2 := OpenPersistentHybridIndex(vFreshStoreCfg(dir, false))
+	vAssert(err2 == nil, "reopen-ok")
+	if err2 != nil {
+		return
+	}
+	vStoreFinds(s2, a, "after-restart")
+	vAssert(s2.Close() == nil, "close-ok")
 	vCover("ran")
 }
